@@ -614,10 +614,64 @@ pub fn run(run: &Run) {
             }
         }
     });
+    // Route B: SSA form produced by the real runner from a file, skeletons <= 2.
+    let root = crate::infra::work_dir("c14");
+    let small = enumerate(opts(2));
+    par_each(&small, |i, skel| {
+        let na: usize = skel.iter().map(|s| s.atoms()).sum();
+        let nc: usize = skel.iter().map(|s| s.conds()).sum();
+        let dir = root.join(format!("{:?}", std::thread::current().id()).replace(|c: char| !c.is_ascii_alphanumeric(), ""));
+        for ac in 0..ATOMS.pow(na as u32) {
+            let atoms = digits(ac, ATOMS, na);
+            for cc in 0..CONDS.pow(nc as u32) {
+                let conds = digits(cc, CONDS, nc);
+                let case = json!({"kind": "ssa-runner", "index": i, "atoms": atoms, "conds": conds, "unroll": unroll});
+                run.watch(&case);
+                run.eval(1);
+                run.violations(check_def_via_runner(&build(skel, &atoms, &conds, true, true), unroll, &dir, &case));
+            }
+        }
+    });
+    let _ = std::fs::remove_dir_all(&root);
     run.assume("paths are explored with every block visited at most unroll+1 times");
 }
 
+pub fn check_def_via_runner(def: &Def, unroll: usize, dir: &std::path::Path, case: &Value) -> Vec<Violation> {
+    let printed = print_def(def);
+    match pipe::lift_via_runner(&printed.text, dir, &def.name, def.kind == DefKind::Function, false) {
+        Ok(cfg) => {
+            let mut out = static_audit(&cfg, &printed.text, case);
+            out.extend(path_audit(&cfg, &printed.text, unroll, case, 20_000).0);
+            for v in out.iter_mut() {
+                v.signature = format!("{}/runner", v.signature);
+            }
+            out
+        }
+        Err(LiftError::Panic { info, .. }) => vec![Violation {
+            signature: info.signature(),
+            what: "lifting through the runner panicked".into(),
+            case: case.clone(),
+            expected: "SSA".into(),
+            observed: printed.text.clone(),
+        }],
+        Err(_) => Vec::new(),
+    }
+}
+
 pub fn replay(case: &Value) -> Vec<Violation> {
+    if case["kind"].as_str() == Some("ssa-runner") {
+        let root = crate::infra::work_dir("c14-replay");
+        let get = |k: &str| -> Vec<usize> {
+            case[k].as_array().map(|a| a.iter().map(|v| v.as_u64().unwrap_or(0) as usize).collect()).unwrap_or_default()
+        };
+        let skels = enumerate(opts(2));
+        let out = match skels.get(case["index"].as_u64().unwrap_or(0) as usize) {
+            Some(skel) => check_def_via_runner(&build(skel, &get("atoms"), &get("conds"), true, true), case["unroll"].as_u64().unwrap_or(2) as usize, &root, case),
+            None => Vec::new(),
+        };
+        let _ = std::fs::remove_dir_all(&root);
+        return out;
+    }
     let max = case["max_stmts"].as_u64().unwrap_or(3) as usize;
     let index = case["index"].as_u64().unwrap_or(0) as usize;
     let unroll = case["unroll"].as_u64().unwrap_or(2) as usize;
